@@ -44,6 +44,7 @@ type sessHist struct {
 	Entry  string   `json:"entry"` // lib | cli
 	Doc    int      `json:"doc"`
 	Doc2   int      `json:"doc2"`
+	Ign    bool     `json:"ign"` // hand STLOptions{IgnoreTimecodeStartOfProgramme: true} to Open (file API)
 }
 
 // sessCue: start / end on the 1/3 ms grid, text atom.
@@ -71,10 +72,12 @@ type sessEvent struct {
 	Grid   bool      `json:"grid"` // every instant lies on the 1/3 ms grid
 	Entry  string    `json:"entry"`
 	Doc    string    `json:"doc"`
+	Raw    []sessCue `json:"raw"` // source: the cues when the STL programme start is ignored (= cues otherwise)
+	Ign    bool      `json:"ign"` // open: the option was handed to Open
 }
 
 func newSessEvent(n int, ev string) sessEvent {
-	return sessEvent{N: n, Ev: ev, A: []int{}, Cues: []sessCue{}, NoRep: []string{}, Grid: true, Swap: [][2]int{}}
+	return sessEvent{N: n, Ev: ev, A: []int{}, Cues: []sessCue{}, NoRep: []string{}, Grid: true, Swap: [][2]int{}, Raw: []sessCue{}}
 }
 
 type atoms struct {
@@ -279,12 +282,23 @@ func (r *sessRunner) pick(format string, k int) (doc, bool) {
 
 // observe opens a file through the file API and logs the outcome.
 func (r *sessRunner) observe(n int, path string, at *atoms) (sessEvent, *astisub.Subtitles) {
+	return r.observeOpt(n, path, at, false)
+}
+
+func (r *sessRunner) observeOpt(n int, path string, at *atoms, ign bool) (sessEvent, *astisub.Subtitles) {
 	ev := newSessEvent(n, "open")
+	ev.Ign = ign
 	ev.File = filepath.Base(path)
 	ev.Ext = extName(filepath.Ext(path))
 	var s *astisub.Subtitles
 	var err error
-	ev.Res, ev.Msg = run.Guard(20*time.Second, func() { s, err = astisub.OpenFile(path) })
+	ev.Res, ev.Msg = run.Guard(20*time.Second, func() {
+		if ign {
+			s, err = astisub.Open(astisub.Options{Filename: path, STL: astisub.STLOptions{IgnoreTimecodeStartOfProgramme: true}})
+		} else {
+			s, err = astisub.OpenFile(path)
+		}
+	})
 	if ev.Res == "ok" {
 		ev.Res = errClass(err)
 		if err != nil {
@@ -316,6 +330,14 @@ func (r *sessRunner) history(n int, h sessHist) []sessEvent {
 		}
 		ev.Res = "ok"
 		ev.Cues, ev.Fps, ev.Grid = sessProject(s, at)
+		ev.Raw = ev.Cues
+		if d.Fmt == "stl" {
+			if s2, err2 := readDoc("stl-ignore", bytes.NewReader(d.Data)); err2 == nil {
+				var g2 bool
+				ev.Raw, _, g2 = sessProject(s2, at)
+				ev.Grid = ev.Grid && g2
+			}
+		}
 		ev.NoRep = notRepresentable(s)
 		for _, it := range s.Items {
 			if t := normText(it); strings.Contains(t, "$") {
@@ -329,7 +351,11 @@ func (r *sessRunner) history(n int, h sessHist) []sessEvent {
 		}
 		return p, ev
 	}
-	d1, ok := r.pick(h.Src, h.Doc)
+	src := h.Src
+	if h.Ign && len(r.docs["stl-tcp"]) > 0 {
+		src = "stl-tcp" // STL documents whose programme start is not zero: the option makes a difference
+	}
+	d1, ok := r.pick(src, h.Doc)
 	if !ok {
 		return nil
 	}
@@ -351,7 +377,7 @@ func (r *sessRunner) history(n int, h sessHist) []sessEvent {
 	}
 	out := filepath.Join(dir, "out"+h.DstExt)
 	if h.Entry == "lib" {
-		ev, s := r.observe(n, in, at)
+		ev, s := r.observeOpt(n, in, at, h.Ign)
 		evs = append(evs, ev)
 		if ev.Res != "ok" {
 			return evs
@@ -498,6 +524,13 @@ func cmdSession(args []string) error {
 			continue // sources are the readable documents
 		}
 		r.docs[d.Fmt] = append(r.docs[d.Fmt], d)
+		if d.Fmt == "stl" {
+			a, e1 := readDoc("stl", bytes.NewReader(d.Data))
+			b, e2 := readDoc("stl-ignore", bytes.NewReader(d.Data))
+			if e1 == nil && e2 == nil && len(a.Items) > 0 && len(b.Items) > 0 && a.Items[0].StartAt != b.Items[0].StartAt {
+				r.docs["stl-tcp"] = append(r.docs["stl-tcp"], d)
+			}
+		}
 	}
 	tmp, err := ioutil.TempDir("", "verif-session")
 	if err != nil {
